@@ -4,8 +4,12 @@ package c09
 import (
 	"bytes"
 	"fmt"
+	"github.com/philpearl/avro"
 	"hash/fnv"
+	"reflect"
 	"time"
+	"unsafe"
+	"verifharness/explore"
 
 	"verifharness/encdrv"
 	"verifharness/fw"
@@ -284,6 +288,23 @@ func runRefused(c *fw.Ctx, cf config) {
 			m := &encdrv.Model{K: cf.k, BlockSize: cf.bs}
 			for i, op := range h {
 				trans++
+				if i == at && !cf.k.IsFlush(op) {
+					// the refused write is the first one of the block this Encode completes by size: the call
+					// reports the failure; the record stays pending and goes out with the next block
+					w.armed = true
+					e.Encode(op)
+					w.armed = false
+					if w.fired == 0 {
+						c.Violation("harness-refusal-not-reached|"+locus, desc, detail)
+						return
+					}
+					m.StepNoEmit(op)
+					if sig, msg := m.CheckOutput(w.Bytes(), cf.codec); sig != "" {
+						c.Violation(sig+"|"+locus, fmt.Sprintf("after call %d (refused size-triggered flush): %s — %s", i, msg, desc), detail)
+						return
+					}
+					continue
+				}
 				if i == at {
 					w.armed = true
 					e.Flush() // refused; what it returns is C16's business
@@ -318,6 +339,9 @@ func runRefused(c *fw.Ctx, cf config) {
 		for i, op := range h {
 			if cf.k.IsFlush(op) && len(m.Pending) > 0 {
 				run(h, i)
+			}
+			if !cf.k.IsFlush(op) && m.PendBytes+len(cf.k.RecordBytes(op)) >= cf.bs {
+				run(h, i) // this Encode completes a block by size: its first write is refused
 			}
 			m.Step(op)
 		}
@@ -501,6 +525,102 @@ func runLong(c *fw.Ctx, codec string) {
 	c.Sample(map[string]interface{}{"kind": "long histories", "codec": codec, "calls_each": 6000, "block_sizes": []int{0, 100, 5000, 1 << 20}})
 }
 
+// ---- an encode that does not happen: a registered codec that refuses a value by panicking before it has written
+// anything (a validating codec), the caller recovers and carries on. Nothing was encoded, so nothing may be counted.
+
+type Picky int64
+
+type PickyRow struct {
+	V Picky `json:"v"`
+}
+
+type pickyCodec struct{ avro.Int64Codec }
+
+func (pickyCodec) Write(w *avro.WriteBuf, p unsafe.Pointer) {
+	if *(*int64)(p) < 0 {
+		panic("picky: negative values are not accepted")
+	}
+	(avro.Int64Codec{}).Write(w, p)
+}
+
+func runPanickingEncode(c *fw.Ctx, codec string) {
+	avro.RegisterSchema(reflect.TypeOf(Picky(0)), avro.Schema{Type: "long"})
+	avro.Register(reflect.TypeOf(Picky(0)), func(s avro.Schema, t reflect.Type, omit bool) (avro.Codec, error) { return pickyCodec{}, nil })
+	var n int64
+	// alphabet: 0 encode(7), 1 encode(-1) — panics, recovered —, 2 flush; block size 2^20 and 0
+	for _, bs := range []int{0, 1 << 20} {
+		for l := 1; l <= 5; l++ {
+			explore.Sequences(3, l, func(h []int) {
+				n++
+				c.Eval(1)
+				desc := fmt.Sprintf("Encoder[PickyRow] codec=%s blocksize=%d history=%v (0 encode(7), 1 encode(-1): the codec panics, the caller recovers, 2 flush)", codec, bs, h)
+				locus := "panicking-codec|" + codec
+				c.Begin(locus, desc)
+				c.Nontrivial(desc)
+				c.Guard(locus, desc, desc, func() {
+					var buf bytes.Buffer
+					e, err := avro.NewEncoderFor[PickyRow](&buf, avro.Compression(codec), bs)
+					if err != nil {
+						c.Violation("ctor-error|"+locus, err.Error(), desc)
+						return
+					}
+					var want [][]int64 // blocks
+					var pending []int64
+					for _, op := range h {
+						switch op {
+						case 0:
+							if err := e.Encode(&PickyRow{V: 7}); err != nil {
+								c.Violation("spurious-error|"+locus, err.Error()+" — "+desc, desc)
+								return
+							}
+							pending = append(pending, 7)
+							if bs == 0 {
+								want, pending = append(want, pending), nil
+							}
+						case 1:
+							func() {
+								defer func() { recover() }()
+								e.Encode(&PickyRow{V: -1})
+							}()
+						default:
+							if err := e.Flush(); err != nil {
+								c.Violation("spurious-error|"+locus, err.Error()+" — "+desc, desc)
+								return
+							}
+							if len(pending) > 0 {
+								want, pending = append(want, pending), nil
+							}
+						}
+					}
+					p, err := ref.ParseFile(buf.Bytes())
+					if err != nil {
+						c.Violation("unparseable|"+locus, fmt.Sprintf("%v — %s", err, desc), desc)
+						return
+					}
+					if len(p.Blocks) != len(want) {
+						c.Violation("block-count|"+locus, fmt.Sprintf("%d blocks emitted, %d expected — %s", len(p.Blocks), len(want), desc), desc)
+						return
+					}
+					for i, b := range p.Blocks {
+						var exp []byte
+						for _, v := range want[i] {
+							exp = ref.AppendLong(exp, v)
+						}
+						if b.Count != int64(len(want[i])) || string(b.Payload) != string(exp) {
+							c.Violation("record-count|"+locus, fmt.Sprintf("block %d declares %d records with payload %x; it holds %d records (%x) — %s", i, b.Count, b.Payload, len(want[i]), exp, desc), desc)
+							return
+						}
+					}
+				})
+			})
+		}
+	}
+	c.Count("states", n)
+	c.Count("transitions", n*3)
+	c.Count("traces_validated_against_impl", n*3)
+	c.Sample(map[string]interface{}{"kind": "encode that panics in a registered codec and is recovered", "codec": codec, "histories": n})
+}
+
 func lastOr(f [][]int) []int {
 	if len(f) == 0 {
 		return nil
@@ -517,17 +637,22 @@ func init() {
 			if tier == "thorough" {
 				d1, d0 = 8, 12
 			}
-			return fmt.Sprintf("explicit-state BFS over call histories of the real Encoder[T]: alphabet {encode(1B), encode(10B), encode(41B), flush} to depth %d for struct{S string} with block sizes {0,1,10,11,20,2^20}, the same with records of 102/9002/20003 bytes (block lengths in the 2- and 3-byte varint ranges) and with a 1.3 MB record between small ones (depth 4), and {encode(0B), flush} to depth %d for struct{} with block sizes {0,1,2^20}, × {null,deflate,snappy}; plus a sweep of every record size 0..1500 bytes (9000 thorough) and 2^k±4 up to 128 KiB of incompressible text (so the compressed block length sweeps the range as well) as two single-record blocks; plus every history of depth<=4 (5) over block sizes {0,10,2^20} in which, for every explicit flush with records pending, the writer refuses that flush's first write once (nothing consumed) and the flush is retried; plus two independent encoders of one codec alive at once, B driven to emit blocks from inside each of A's writes in turn; plus block sizes just above and well above 1 MiB with a 1.3 MB record; plus one fixed pseudo-random history of 6000 calls per codec and block size {0,100,5000,2^20}, model checked every 97 calls; successor = replay of the shortest history on a fresh encoder + one call; states deduplicated on (pending records, sync-normalised output hash); after every call the whole output is parsed by the reference container parser and compared with the lock-step model {pending []record}; distinct_nontrivial counts distinct (config, history) pairs checked", d1, d0)
+			return fmt.Sprintf("explicit-state BFS over call histories of the real Encoder[T]: alphabet {encode(1B), encode(10B), encode(41B), flush} to depth %d for struct{S string} with block sizes {0,1,10,11,20,2^20}, the same with records of 102/9002/20003 bytes (block lengths in the 2- and 3-byte varint ranges) and with a 1.3 MB record between small ones (depth 4), and {encode(0B), flush} to depth %d for struct{} with block sizes {0,1,2^20}, × {null,deflate,snappy}; plus a sweep of every record size 0..1500 bytes (9000 thorough) and 2^k±4 up to 128 KiB of incompressible text (so the compressed block length sweeps the range as well) as two single-record blocks; plus every history of depth<=4 (5) over block sizes {0,10,2^20} in which, for every explicit flush with records pending, the writer refuses that flush's first write once (nothing consumed) and the flush is retried, and for every encode that completes a block by size the same refusal (the record must stay pending and go out with the next block); plus two independent encoders of one codec alive at once, B driven to emit blocks from inside each of A's writes in turn; plus block sizes just above and well above 1 MiB with a 1.3 MB record; plus every history of <=5 calls over {encode, an encode whose registered codec panics before writing (recovered by the caller), flush}; plus one fixed pseudo-random history of 6000 calls per codec and block size {0,100,5000,2^20}, model checked every 97 calls; successor = replay of the shortest history on a fresh encoder + one call; states deduplicated on (pending records, sync-normalised output hash); after every call the whole output is parsed by the reference container parser and compared with the lock-step model {pending []record}; distinct_nontrivial counts distinct (config, history) pairs checked", d1, d0)
 		},
 		Assumptions: []string{
 			"records are drawn from a 3-size alphabet (1, 10, 41 encoded bytes) plus the zero-byte record; larger records and other block sizes are not explored",
 			"canonical state = (pending record list, hash of all output with the random sync marker normalised): Encoder holds no other mutable state that influences the future (count, wb, compressor scratch overwritten per block)",
 			"reference container parser / decompressors (stdlib flate, golang/snappy) are trusted",
 		},
-		NumCases: func(tier string) int { return len(configs(tier)) + 3 + 9 + 3 + 3 },
+		NumCases: func(tier string) int { return len(configs(tier)) + 3 + 9 + 3 + 3 + 3 },
 		RunCase: func(c *fw.Ctx, idx int) {
 			n := len(configs(c.Tier))
 			codecs := []string{"null", "deflate", "snappy"}
+			if idx >= n+3+9+3+3 {
+				c.Begin("c09", "panicking codec "+codecs[idx-n-18])
+				runPanickingEncode(c, codecs[idx-n-18])
+				return
+			}
 			if idx >= n+3+9+3 {
 				c.Begin("c09", "long history "+codecs[idx-n-15])
 				runLong(c, codecs[idx-n-15])
